@@ -5,7 +5,7 @@ import itertools
 
 import numpy as np
 
-from checks.common import hash_tag
+from checks.common import hash_tag, relayout
 from qmc import gen as G
 from qmc import oracle as O
 from qmc.loader import load
@@ -36,6 +36,8 @@ def cases(tier, seed):
         for st in STRUCT:
             for row in range(rows):
                 out.append({"key": f"{st}/n={n}/row={row}", "grp": "struct", "st": st, "n": n, "row": row})
+        for lay in ("F", "T", "view"):
+            out.append({"key": f"generic/n={n}/layout={lay}", "grp": "struct", "st": "generic", "n": n, "row": 0, "lay": lay})
         if n >= 3:
             for mask in range(1 << (n - 2)):
                 for cls in ("generic", "ints"):
@@ -118,7 +120,7 @@ def run_case(case, seed):
     A = make(case, seed)
     n = A.shape[0]
     tags = {"grp": case["grp"], "n": n}
-    Aq = G.to_quat(A)
+    Aq = relayout(G.to_quat(A), case.get("lay", "C"))
     before = Aq.tobytes()
     ok, res = call(lib.hess.hessenbergize, Aq)
     fails = []
